@@ -418,12 +418,27 @@ fn main() {
                 body = format!("\"res\":0,\"reqs\":[{}]", s.trim_end_matches(','));
             }
             "bforgetall" => {
-                // the client lets go of every inode number it was ever given (root excepted)
-                let v: Vec<(u64, u64)> = h.issued.iter().filter(|n| **n != 1).map(|n| (*n, 1_000_000u64)).collect();
+                // the client lets go of every inode number it was ever given: bforgetall [plain|rootfirst|rootmid|rootlast|single]
+                // (one BATCH_FORGET, with an entry for the root -- which is never forgotten -- at the given place, or
+                // one FORGET per number)
+                let variant = w.get(1).map(|x| x.as_str()).unwrap_or("plain").to_string();
+                let mut v: Vec<(u64, u64)> = h.issued.iter().filter(|n| **n != 1).map(|n| (*n, 1_000_000u64)).collect();
+                match variant.as_str() {
+                    "rootfirst" => v.insert(0, (1, 3)),
+                    "rootmid" => v.insert(v.len() / 2, (1, 3)),
+                    "rootlast" => v.push((1, 3)),
+                    _ => {}
+                }
                 let s: Vec<String> = v.iter().map(|(a, b)| format!("[{},{}]", a, b)).collect();
-                h.fs.batch_forget(&h.ctx.clone(), v);
+                if variant == "single" {
+                    for (a, b) in &v {
+                        h.fs.forget(&h.ctx.clone(), *a, *b);
+                    }
+                } else {
+                    h.fs.batch_forget(&h.ctx.clone(), v);
+                }
                 w[0] = "bforget".to_string();
-                body = format!("\"res\":0,\"all\":1,\"reqs\":[{}]", s.join(","));
+                body = format!("\"res\":0,\"all\":\"{}\",\"reqs\":[{}]", variant, s.join(","));
             }
             "open" | "opendir" => {
                 let (hd, r) = (us(1), us(2));
